@@ -407,7 +407,29 @@ func optionBits(repo string) string {
 func main() {
 	repo := flag.String("repo", "/repo", "repository root")
 	out := flag.String("out", "", "output file")
+	propsPath := flag.String("props", "/verif/properties.jsonl", "the properties (their anchor files define the source shape)")
+	shapeOut := flag.String("shape-out", "", "write Orda/Gen/Shape.lean (hashes of the normalised functions of the anchored files) here")
+	shapeJSON := flag.String("shape-json", "", "write the normalised function texts of the anchored files here (JSON)")
+	writeExpected := flag.String("write-expected", "", "write Expected.lean (the shape the model was written against) here and exit")
+	expectedJSON := flag.String("expected-json", "", "with -write-expected: also write the normalised texts here (JSON)")
 	flag.Parse()
+	if *writeExpected != "" {
+		var eb strings.Builder
+		eb.WriteString("/- Source shape the model was written against (hashes of the normalised functions of the anchored files).\n   Written by `tools/gofacts -write-expected` from a tree on which all checks pass; committed; compared with the\n   REGENERATED `Orda.Gen.Shape` by the theorems of Orda/Shape/Cxx.lean. -/\nnamespace Orda.Gen\n")
+		all := shape(*repo, *propsPath, &eb, "Expected")
+		eb.WriteString("end Orda.Gen\n")
+		if err := os.WriteFile(*writeExpected, []byte(eb.String()), 0644); err != nil {
+			fmt.Println(err)
+			os.Exit(2)
+		}
+		if *expectedJSON != "" {
+			writeJSON(*expectedJSON, all)
+		}
+		for _, p := range problems {
+			fmt.Println("UNTRANSLATABLE:", p)
+		}
+		return
+	}
 	var b strings.Builder
 	b.WriteString("/- GENERATED by tools/gofacts from the current sources of the repository. Do not edit. -/\n")
 	b.WriteString("import Orda.Model.GenTypes\nnamespace Orda.Gen\nopen Orda\n\n")
@@ -421,6 +443,22 @@ func main() {
 	fmt.Fprintf(&b, "def optionBits : List (String × Nat) := %s\n\n", optionBits(*repo))
 	extra(*repo, &b)
 	b.WriteString("end Orda.Gen\n")
+	if *shapeOut != "" {
+		var sb strings.Builder
+		sb.WriteString("/- GENERATED by tools/gofacts from the current sources of the repository. Do not edit. -/\nnamespace Orda.Gen\n")
+		all := shape(*repo, *propsPath, &sb, "Shape")
+		sb.WriteString("end Orda.Gen\n")
+		old, _ := os.ReadFile(*shapeOut)
+		if string(old) != sb.String() {
+			if err := os.WriteFile(*shapeOut, []byte(sb.String()), 0644); err != nil {
+				fmt.Println(err)
+				os.Exit(2)
+			}
+		}
+		if *shapeJSON != "" {
+			writeJSON(*shapeJSON, all)
+		}
+	}
 	if *out == "" {
 		fmt.Print(b.String())
 	} else if err := os.WriteFile(*out, []byte(b.String()), 0644); err != nil {
